@@ -177,3 +177,9 @@ func mkSandbox(env *Env) string {
 	}
 	return d
 }
+
+// asciiFields splits at the directive's own white space only (the \s of the line patterns: blank, tab, newline, form
+// feed, carriage return); any other white space (vertical tab, NBSP, …) is part of the key, value or name it touches
+func asciiFields(s string) []string {
+	return strings.FieldsFunc(s, func(c rune) bool { return c == ' ' || c == '\t' || c == '\n' || c == '\f' || c == '\r' })
+}
